@@ -160,7 +160,7 @@ func cmdOpFront(args []string) error {
 			ids = append(ids, id)
 			st := pick(r, []queue.State{queue.StateQueued, queue.StateQueued, queue.StateDead, queue.StateDead, queue.StateCanceled, queue.StateCanceled, queue.StateCanceled, queue.StateDelivered})
 			env := queue.Envelope{ID: id, Route: pick(r, []string{"/billing", "/billing", "/alerts", "/other", "/other"}), Target: "pull", State: st,
-				ReceivedAt: base.Add(-time.Duration(r.intn(6)) * time.Minute), Payload: []byte("x")}
+				ReceivedAt: base.Add(-time.Duration(r.intn(6)) * time.Minute).Add(time.Duration(pick(r, []int{0, 0, 250, 500, 750})) * time.Millisecond), Payload: []byte("x")}
 			if st == queue.StateDead {
 				env.DeadReason = "max_retries"
 			}
@@ -261,8 +261,11 @@ func cmdOpFront(args []string) error {
 			}
 			if r.chance(40) {
 				t := base.Add(-time.Duration(r.intn(6)) * time.Minute)
+				if r.chance(50) {
+					t = t.Add(time.Duration(1+r.intn(999)) * time.Millisecond) // a cursor as listings return it: with a fraction
+				}
 				f.Before = t.UnixNano()
-				argsM["before"] = t.Format(time.RFC3339)
+				argsM["before"] = t.Format(time.RFC3339Nano)
 			}
 			if r.chance(55) {
 				f.Limit = pick(r, []int{1, 1, 2, 3, 50, 1000})
